@@ -54,4 +54,9 @@ def json_b64encode(text: Any) -> bytes:
 
 
 def json_b64decode(text: Any) -> Any:
-    return json.loads(urlsafe_b64decode(to_bytes(text, "ascii")))
+    data = urlsafe_b64decode(to_bytes(text, "ascii"))
+    try:
+        return json.loads(data)
+    except RecursionError:
+        # deeply nested JSON from an untrusted source
+        raise ValueError("JSON is nested too deep")
